@@ -15,6 +15,9 @@ mod close_sender;
 #[cfg(aws_s2n_quic_verif)]
 #[path = "../verif_hooks/close_sender.rs"]
 pub mod verif_close_sender;
+#[cfg(aws_s2n_quic_verif)]
+#[path = "../verif_hooks/reset_map.rs"]
+pub mod verif_reset_map;
 mod connection_container;
 mod connection_id_mapper;
 mod connection_impl;
